@@ -3,6 +3,7 @@
 // corruption / permutation of a well-formed book; every RNG outcome (Random::nextInt is scripted through --wrap).
 #include "harness/common.hpp"
 #include "harness/bridge.hpp"
+#include "oracle/universes.hpp"
 #include "book.hpp"
 #include "polyglot.hpp"
 #include "parameters.hpp"
@@ -104,6 +105,45 @@ static void allCodes(Book& book, MemFile& mf) {
             R.count("states");
             std::set<int> got = probeAll(book, pos, b, "one-entry book code=" + std::to_string(code), hex(file));
             if (!(got.size() == 1 && *got.begin() == -1)) { R.count("nontrivial"); R.outcome(fen.substr(0, 12) + ":" + br::codeStr(*got.rbegin())); }
+        }
+    }
+}
+
+/** Polyglot move word, written from the format description (not with the engine's encoder): to-file, to-row, from-file, from-row, promotion
+ *  piece (1 N, 2 B, 3 R, 4 Q); castling is "king takes own rook". */
+static U16 pgEncode(const orc::Board& b, const orc::Mv& m) {
+    int from = m.from, to = m.to;
+    int t = orc::typeOf(b.sq[from]);
+    if (t == 1 && abs(orc::X(to) - orc::X(from)) == 2) to = orc::X(to) == 6 ? from + 3 : from - 4;
+    int promo = 0;
+    if (m.promo) { int pt = orc::typeOf(m.promo); promo = pt == 5 ? 1 : pt == 4 ? 2 : pt == 3 ? 3 : 4; }
+    return (U16)(orc::X(to) | (orc::Y(to) << 3) | (orc::X(from) << 6) | (orc::Y(from) << 9) | (promo << 12));
+}
+
+/** Every legal move of every position of a list, stored alone under the position's key in an otherwise well-formed book: the probe must return
+ *  exactly that move (decode errors for particular move geometries: castling look-alikes, promotions, en passant, corner moves). */
+static void legalMoves(Book& book, MemFile& mf) {
+    std::vector<std::string> fens = POS;
+    for (const char* f : {"k7/8/8/8/8/8/5K2/4Q2r w - - 0 1", "4q2R/5k2/8/8/8/8/8/K7 b - - 0 1", "k7/8/8/8/8/8/5K2/4R3 w - - 0 1", "4r3/5k2/8/8/8/8/4P3/R3K2R b KQ - 0 1",
+                          "r3k2r/4p3/8/8/8/8/8/4RK2 w kq - 0 1", "4k3/8/8/8/8/8/8/R3K2R w KQ - 0 1", "r3k2r/8/8/8/8/8/8/4K3 b kq - 0 1", "8/2P1k3/8/8/8/8/4K1p1/5N1R b - - 0 1"}) fens.push_back(f);
+    auto seeds = uni::readSeeds("corpus/seeds.fen");
+    uni::Part all{0, 1};
+    uni::UPERFT(seeds, 1, all, [&](const orc::Board& b, unsigned long long, int) { fens.push_back(orc::toFEN(b)); });
+    unsigned long long id = 0;
+    for (auto& fen : fens) {
+        if (!W->mine(id++)) continue;
+        Position pos; try { pos = TextIO::readFEN(fen); } catch (const ChessParseError& e) { fprintf(stderr, "legalmoves: position list contains an invalid FEN: %s (%s)\n", fen.c_str(), e.what()); exit(2); }
+        orc::Board b = br::fromTexel(pos);
+        U64 key = PolyglotBook::getHashKey(pos);
+        W->crumb("legalmoves " + fen);
+        for (auto& m : orc::legalMoves(b)) {
+            std::string file = entryBytes(key - 7, 0x0123, 3) + entryBytes(key, pgEncode(b, m), 5) + entryBytes(key + 7, 0x0456, 2);
+            mf.set(file);
+            R.count("states"); R.count("nontrivial");
+            std::set<int> got = probeAll(book, pos, b, "single stored move " + orc::uci(m), hex(file));
+            if (!(got.size() == 1 && *got.begin() == m.code()))
+                R.violation(got.size() == 1 && *got.begin() == -1 ? "stored-move-never-returned" : "wellformed-returns-unstored-move",
+                            fen + " stored " + orc::uci(m) + " got " + br::setStr(got), "{\"kind\":\"fault\",\"what\":\"single stored move\",\"fen\":\"" + jsonEsc(fen) + "\",\"file\":\"" + hex(file) + "\"}");
         }
     }
 }
@@ -241,6 +281,7 @@ int main(int argc, char** argv) {
     if (part == "allcodes") allCodes(book, mf);
     else if (part == "wf" || part == "trunc" || part == "bytes" || part == "perm") wellFormed(book, mf, part);
     else if (part == "builtin") builtin(book);
+    else if (part == "legalmoves") legalMoves(book, mf);
     else return 2;
     w.finish(R);
     return 0;
